@@ -20,10 +20,12 @@
    the new job cannot start before the running one ends (exclusivity), so it will poll the input again afterwards.
    In a quiescent state (i)-(iii) are false, so (iv) holds: nothing available, not ended - this is theorem 4. *)
 From stdpp Require Import list numbers option.
+From RecordUpdate Require Import RecordUpdate.
 From PipeIn Require Import Model Inv Thm Term OneShot.
 
 (* 1. order, exactly once: the Process events are, in order, exactly the items taken from the input so far
-      (the item in the hands of the running job excepted); what is left is still in the input, in order. *)
+      (the item in the hands of the running job - possibly suspended in the middle of its processing - excepted);
+      what is left is still in the input, in order.  An item is a pair (number, slow). *)
 Theorem C11_order_exactly_once :
   forall items s, reachable items s ->
     processed s.(log) ++ inhand s ++ s.(ready) ++ s.(future) = items.
@@ -40,6 +42,33 @@ Theorem C11_process_inside_poll_job :
   forall items s l1 x l2, reachable items s -> s.(log) = l1 ++ EProcess x :: l2 ->
     exists k l0 l', l1 = l0 ++ EStart (OPoll k) :: l' /\ excl l0 = Some None /\ forallb is_process l' = true.
 Proof. exact process_inside_poll_job. Qed.
+
+(* 2'. slow items: the processing of an item may suspend once in the middle (Begin ... Process).  The poll job stays the
+       object's open operation across the suspension: the Begin lies inside a poll job and the NEXT event of the whole
+       log is the Process of the same item - no operation starts or finishes and nothing else is processed in between;
+       as long as there is no such next event the poll job is the running operation, suspended on that item.
+       ASSUMPTION about the self-wake: the model lets the runner re-poll a suspended job at any time
+       (C11_suspended_resumes), i.e. it assumes that the wake-up the processing future sends to its own task waker is
+       delivered; that is property C06 of the scheduler layers.  Hence a state with a suspended item is never quiescent. *)
+Theorem C11_suspension_atomic :
+  forall items s, reachable items s -> susp_ok s.(log) = Some (susp_item s).
+Proof. exact suspension_atomic. Qed.
+
+Theorem C11_begin_then_process :
+  forall items s l1 x l2, reachable items s -> s.(log) = l1 ++ EBegin x :: l2 ->
+    is_slow x = true /\
+    (exists k l0 l', l1 = l0 ++ EStart (OPoll k) :: l' /\ excl l0 = Some None /\ forallb is_process l' = true) /\
+    ((l2 = [] /\ exists k, s.(running) = Some (OPoll k, JSusp x)) \/ exists l2', l2 = EProcess x :: l2').
+Proof. exact begin_then_process. Qed.
+
+Theorem C11_suspended_resumes :
+  forall s k x, s.(running) = Some (OPoll k, JSusp x) ->
+    step s ARun = Some (s <| log := s.(log) ++ [EProcess x] |> <| running := Some (OPoll k, JPoll) |>).
+Proof. exact suspended_resumes. Qed.
+
+Theorem C11_suspended_not_quiescent :
+  forall s k x, s.(running) = Some (OPoll k, JSusp x) -> ~ quiescent s.
+Proof. exact suspended_not_quiescent. Qed.
 
 Theorem C11_start_when_nothing_open :
   forall items s l1 o l2, reachable items s -> s.(log) = l1 ++ EStart o :: l2 -> excl l1 = Some None.
@@ -78,7 +107,9 @@ Theorem C11_never_keeps_alive :
     (s.(ext) = false -> s.(freed) = true \/ run_free s.(running) = true \/ last_free s.(opq) = true).
 Proof. exact never_keeps_alive. Qed.
 
-(* 5b. shutdown *)
+(* 5b. shutdown.  "Gone" = freed (the final operation of Desync::drop has run).  If the last owner drops the object while an
+       item is suspended, Desync::drop waits behind the suspended poll job (FIFO, one operation at a time): the item is
+       finished first (example ex_drop_while_suspended); the statement covers every reachable state, suspended or not. *)
 Theorem C11_shutdown :
   forall items s e s1 tr s2, reachable items s -> s.(freed) = true ->
     (e = AEnvAvail \/ e = AEnvEnd) -> step s e = Some s1 -> run s1 tr = Some s2 -> quiescent s2 ->
@@ -129,6 +160,10 @@ Print Assumptions C11_order_exactly_once.
 Print Assumptions C11_exclusive.
 Print Assumptions C11_process_inside_poll_job.
 Print Assumptions C11_start_when_nothing_open.
+Print Assumptions C11_suspension_atomic.
+Print Assumptions C11_begin_then_process.
+Print Assumptions C11_suspended_resumes.
+Print Assumptions C11_suspended_not_quiescent.
 Print Assumptions C11_no_lost_item_invariant.
 Print Assumptions C11_no_lost_item.
 Print Assumptions C11_terminal_complete.
